@@ -95,6 +95,12 @@ def _harness(case):
         else:
             thr = symarray(ctx, 't', (H, W))
             tt = [[thr[y, x].e for x in range(W)] for y in range(H)]
+        for (py, px), above in (case.get('pin') or {}).items():
+            # prefix split for parallelism: this sub-case covers the inputs
+            # in which pixel (py, px) is / is not above threshold
+            c_ = z3.And(z3.Not(nanflag(data[py, px])),
+                        term(data[py, px]) > tt[py][px])
+            ctx.assume(c_ if above else z3.Not(c_))
         if case.get('template'):
             # bounded family on a larger image: only the template pixels may
             # be above threshold (all others are assumed <= threshold)
@@ -297,12 +303,23 @@ def run_case(case):
 def cases(tier, seed):
     cs = []
 
-    def add(shape, conn, thr, mask, npix, **kw):
+    def add(shape, conn, thr, mask, npix, split=None, **kw):
         H, W = shape
         name = (f'detect-{H}x{W}-c{conn}-{thr}-mask:{mask}-npix{npix[0]}.'
                 f'{npix[1]}' + ''.join(f'-{k}:{v}' for k, v in kw.items()))
-        cs.append(dict(kind='detect', name=name, shape=shape, conn=conn,
-                       thr=thr, mask=mask, npix=npix, **kw))
+        if not split:
+            cs.append(dict(kind='detect', name=name, shape=shape, conn=conn,
+                           thr=thr, mask=mask, npix=npix, **kw))
+            return
+        # split the case over all above/below assignments of the listed
+        # pixels (exhaustive: the sub-cases partition the input space)
+        import itertools
+        for bits in itertools.product((False, True), repeat=len(split)):
+            pin = dict(zip(split, bits))
+            sfx = ''.join('1' if b else '0' for b in bits)
+            cs.append(dict(kind='detect', name=name + '-pin' + sfx,
+                           shape=shape, conn=conn, thr=thr, mask=mask,
+                           npix=npix, pin=pin, **kw))
 
     for conn in (4, 8):
         for thr in ('scalar', '2d'):
@@ -335,22 +352,20 @@ def cases(tier, seed):
                 add((2, 3), conn, thr, 'upto2', (4, 7))
                 for n in ((1, 1), (2, 2), (3, 4), (5, 10)):
                     add((3, 3), conn, thr, 'none', n)
-                for n in ((1, 1), (2, 2), (3, 3), (4, 5), (6, 10)):
+                for n in ((1, 1), (2, 2), (3, 3), (4, 5), (6, 7), (8, 10)):
                     add((3, 3), conn, thr, 'upto2', n)
                 for n in ((1, 1), (2, 2), (3, 4), (5, 13)):
                     add((3, 4), conn, thr, 'none', n)
                     add((4, 3), conn, thr, 'none', n)
-            add((3, 4), conn, 'scalar', 'upto1', (1, 13), entry='core')
         # 4x4: 65536 patterns; npixels symbolic inside the core routine
-        for lo, hi in ((1, 2), (3, 4), (5, 17)):
-            add((4, 4), 8, 'scalar', 'none', (lo, hi), entry='core',
-                nan=False, max_seconds=900)
-        add((4, 4), 4, 'scalar', 'none', (1, 17), entry='core', nan=False,
-            max_seconds=900)
+        row0 = [(0, 0), (0, 1), (0, 2), (0, 3)]
+        for conn in (8, 4):
+            add((4, 4), conn, 'scalar', 'none', (1, 17), entry='core',
+                nan=False, split=row0)
         for tpl in TEMPLATES:
             for conn in (4, 8):
-                add((5, 5), conn, 'scalar', 'none', (1, 17), entry='core',
-                    nan=False, template=tpl, max_seconds=1200)
+                add((5, 5), conn, 'scalar', 'none', (7, 12), entry='core',
+                    nan=False, template=tpl, split=TEMPLATES[tpl][:4])
     return cs
 
 
